@@ -20,6 +20,7 @@ impl DispScenario {
 /// Scenario k of the stream: network family x sidings x foul links/lock-outs x 1..8 trains in both
 /// directions x equal/distinct departures x lengths shorter/longer than the sidings.
 pub fn gen_disp_scenario(r: &mut Rng, k: usize) -> DispScenario {
+    if k % 9 == 4 { return gen_chase_scenario(r, k); }
     let family = if r.chance(0.7) { 0 } else { 1 };
     let sidings = *r.pick(&[0usize, 1, 1, 2, 2, 3, 3, 4]);
     let foul = r.chance(0.35);
@@ -60,12 +61,49 @@ pub fn gen_disp_scenario(r: &mut Rng, k: usize) -> DispScenario {
     DispScenario { sp, trains, tags }
 }
 
+/// Followers that catch up inside a shared link and then DIVERGE at its far end (different next link):
+/// a slow leader and faster followers in one direction, departures close together, destinations on
+/// different tracks -- two eastern branches (junction family), or the leader ends on the last siding
+/// track while the followers run through.  The exit-end headway gate (not the entry gate) is the
+/// binding one in these scenarios.
+pub fn gen_chase_scenario(r: &mut Rng, k: usize) -> DispScenario {
+    let junction = r.chance(0.5);
+    let mut sp;
+    let mut guard = 0;
+    loop {
+        let (ks, sh) = (if junction { *r.pick(&[0usize, 0, 1]) } else { *r.pick(&[1usize, 1, 2]) }, r.chance(0.5));
+        sp = gen_spec(r, if junction { 1 } else { 0 }, ks, false, sh);
+        guard += 1;
+        if !junction || sp.east.len() == 2 || guard > 40 { break; }
+    }
+    let n_tr = 2 + r.below(3);
+    let eastbound = true;
+    let base = *r.pick(&[0.0, 0.0, 3600.0]);
+    let slow = *r.pick(&[6.0, 8.0, 10.0]);
+    let last_siding = sp.segs.iter().rposition(|s| s.role == "sid_side");
+    let mut trains = vec![];
+    for i in 0..n_tr {
+        let origs: Vec<usize> = sp.west.iter().map(|&j| sp.fwd_idx[j]).collect();
+        let dests: Vec<usize> = if sp.east.len() == 2 { vec![sp.fwd_idx[sp.east[i % 2]]] }
+            else if let (0, Some(s)) = (i, last_siding) { vec![sp.fwd_idx[s]] }
+            else { sp.east.iter().map(|&j| sp.fwd_idx[j]).collect() };
+        let length = *r.pick(&[400.0, 1000.0, 2000.0]);
+        let speed_max = if i == 0 || (i == 2 && r.chance(0.5)) { Some(slow) } else { Some(*r.pick(&[20.0, 25.0, 30.0])) };
+        trains.push(TrainSpec { id: format!("T{}", i + 1), eastbound, origs, dests, length, depart: base + (r.below(4) as f64) * 60.0 * i as f64, speed_max });
+    }
+    let _ = k;
+    let tags = vec![format!("family:{}", sp.family), format!("sidings:{}", sp.segs.iter().filter(|s| s.role == "sid_side").count()), "foul:false".to_string(),
+        format!("trains:{}", n_tr), "dirs:one_way".to_string(), "depart:chase".to_string(), "lengths:short".to_string(),
+        format!("chase:{}", if sp.east.len() == 2 { "diverge_at_junction" } else if last_siding.is_some() { "leader_ends_on_siding" } else { "same_route" })];
+    DispScenario { sp, trains, tags }
+}
+
 fn flip_train(sp: &NetSpec, t: &TrainSpec) -> TrainSpec {
     let flip = |l: usize| -> usize {
         if let Some(i) = sp.fwd_idx.iter().position(|&x| x == l) { sp.rev_idx[i] } else { sp.fwd_idx[sp.rev_idx.iter().position(|&x| x == l).unwrap()] }
     };
     TrainSpec { id: t.id.clone(), eastbound: !t.eastbound, origs: t.dests.iter().map(|&l| flip(l)).collect(), dests: t.origs.iter().map(|&l| flip(l)).collect(),
-        length: t.length, depart: t.depart }
+        length: t.length, depart: t.depart, speed_max: t.speed_max }
 }
 
 // ------------------------------------------------------------------ snapshots (hook H1) as plain data
